@@ -15,6 +15,9 @@ func specExpandBackrefs(input string, groups []string) (string, bool) {
 	ok := true
 	out := backrefReplace.ReplaceAllStringFunc(input, func(s string) string {
 		m := backrefReplace.FindStringSubmatch(s)
+		if len(m[1])%2 == 0 {
+			return s // escaped backslashes followed by a digit: not a back-reference
+		}
 		n := int(m[2][0] - '0')
 		if n >= len(groups) {
 			ok = false
@@ -29,9 +32,9 @@ func specExpandBackrefs(input string, groups []string) (string, bool) {
 // asked of the same cache before (coherence of the one piece of shared mutable state of a definition).
 func TestVerif_C03C09_BackrefCache(t *testing.T) {
 	res := &verifResult{Check: "BackrefRegex cache", Property: "C03 C09", Exhaustive: true,
-		Bound: "patterns {\\1, \\2, <\\1>\\2, \\\\1, a\\1+, \\0, \\0-\\1}; two values of group 0; group lists of length 1-3 over {\"a\", \"b\", \"a\\x00b\", \"a\\x00\", \"\", \".\", \"(\"}; every ordered pair of calls on one shared cache",
+		Bound: "patterns {\\1, \\2, <\\1>\\2, \\\\1, a\\1+, \\0, \\0-\\1, \\1\\\\2, \\\\\\1, \\\\2\\1} (escaped backslashes before a digit are not back-references); two values of group 0; group lists of length 1-3 over {\"a\", \"b\", \"a\\x00b\", \"a\\x00\", \"\", \".\", \"(\"}; every ordered pair of calls on one shared cache",
 		Rule: "ordered pairs of (pattern, groups) calls on one cache; non-trivial = both succeed and the two expansions differ"}
-	patterns := []string{`\1`, `\2`, `<\1>\2`, `\\1`, `a\1+`, `\0`, `\0-\1`}
+	patterns := []string{`\1`, `\2`, `<\1>\2`, `\\1`, `a\1+`, `\0`, `\0-\1`, `\1\\2`, `\\\1`, `\\2\1`}
 	atoms := []string{"a", "b", "a\x00b", "a\x00", "", ".", "("}
 	var groupLists [][]string
 	for _, a := range atoms {
@@ -278,6 +281,8 @@ func TestVerif_C04C06C15_TextScanner(t *testing.T) {
 			if tok.EOF() {
 				if tok.Pos.Offset != len(in) {
 					res.violate("input %q: EOF token at offset %d, want %d", in, tok.Pos.Offset, len(in))
+				} else if l, c := oracle(in, len(in)); tok.Pos.Line != l || tok.Pos.Column != c || tok.Pos.Filename != "file" {
+					res.violate("input %q: EOF token has position %s:%d:%d, exact is file:%d:%d", in, tok.Pos.Filename, tok.Pos.Line, tok.Pos.Column, l, c)
 				}
 				return sb.String(), ntok, false
 			}
